@@ -305,7 +305,7 @@ fn main() {
 	let inv = std::sync::Mutex::new(HashMap::<String, u64>::new());
 	let next = AtomicU64::new(0);
 	let total = n_hist + n_long;
-	let deadline_s = if san { 600.0 } else { run.tier.pick(150.0, 900.0) };
+	let deadline_s = if san { 600.0 } else { run.tier.pick(400.0, 1200.0) };
 	std::thread::scope(|s| {
 		for _ in 0..threads {
 			s.spawn(|| {
